@@ -210,6 +210,99 @@ example :
     (run { tol := true, ctx := exCtx2, s := "~{~{~{".toList } 22 (topTask exF)).isFuel' = true
     ∧ (run { tol := true, ctx := exCtx2, s := "~{~{~{".toList } 23 (topTask exF)).isOk' = true := by decide
 
+/-! ### non-vacuity for expression arguments without leading whitespace (`ArgKind.m0`)
+
+`\p` has the signature `[m, m0]`; the source `\p{a} {b}` puts a blank in front of the second argument.
+Strict mode: located error "expected expression w/o leading whitespace" at the blank (offset 5).
+Tolerant mode: `_parse_single_token` has already consumed the offending token (the `{` with its leading blank);
+the recovery retries *after* it, so `b` becomes the argument, and the now unmatched `}` is skipped by the
+collector's own recovery (reader ends at 9, the node list at 8). -/
+
+private def m0Ctx : Ctx := { macros := [(['p'], .std [⟨.m, .none⟩, ⟨.m0, .none⟩])] }
+private def m0Src : Str := ['\\', 'p', '{', 'a', '}', ' ', '{', 'b', '}']
+private def m0Src2 : Str := ['\\', 'p', '{', 'a', '}', ' ', 'b']
+
+private def m0Tree : Ret :=
+  .ok (.list (some 0) (some 8)
+    [Node.mac 0 8 {} ['p'] [] (some [.node (Node.group 2 5 {} ['{'] ['}'] (some [Node.chars 3 4 {} ['a']])),
+                                      .node (Node.chars 7 8 {} ['b'])])]) 9
+
+/-- a plain character after the blank is dropped in the same way; the slot is then filled at the end of the input
+    by the empty placeholder group -/
+private def m0Tree2 : Ret :=
+  .ok (.list (some 0) (some 7)
+    [Node.mac 0 7 {} ['p'] [] (some [.node (Node.group 2 5 {} ['{'] ['}'] (some [Node.chars 3 4 {} ['a']])),
+                                      .node (Node.group 7 7 {} [] [] (some []))])]) 7
+
+private def isM0Tree : Ret → Bool
+  | .ok (.list (some 0) (some 8)
+      [Node.mac 0 8 ⟨false, none⟩ ['p'] []
+        (some [.node (Node.group 2 5 ⟨false, none⟩ ['{'] ['}'] (some [Node.chars 3 4 ⟨false, none⟩ ['a']])),
+               .node (Node.chars 7 8 ⟨false, none⟩ ['b'])])]) 9 => true
+  | _ => false
+
+private def isM0Tree2 : Ret → Bool
+  | .ok (.list (some 0) (some 7)
+      [Node.mac 0 7 ⟨false, none⟩ ['p'] []
+        (some [.node (Node.group 2 5 ⟨false, none⟩ ['{'] ['}'] (some [Node.chars 3 4 ⟨false, none⟩ ['a']])),
+               .node (Node.group 7 7 ⟨false, none⟩ [] [] (some []))])]) 7 => true
+  | _ => false
+
+private theorem eq_of_isM0Tree (r : Ret) (h : isM0Tree r = true) : r = m0Tree := by
+  unfold isM0Tree at h
+  split at h
+  · rfl
+  · cases h
+
+private theorem eq_of_isM0Tree2 (r : Ret) (h : isM0Tree2 r = true) : r = m0Tree2 := by
+  unfold isM0Tree2 at h
+  split at h
+  · rfl
+  · cases h
+
+/-- what, position and recovery node list of a strict failure -/
+private def Ret.errInfo : Ret → Option (ErrWhat × Option Nat × Nat)
+  | .perr e => some (e.what, e.pos, match e.recNodes with | .list _ _ ns => ns.length | _ => 0)
+  | _ => none
+
+set_option maxRecDepth 100000 in
+/-- tolerant parse of `\p{a} {b}` under `[m, m0]`: terminates (with the model's fuel and already with `fuelEnough`)
+    with exactly this tree — kernel evaluation of the model -/
+example : parseTop { tol := true, ctx := m0Ctx, s := m0Src } {} = m0Tree
+    ∧ run { tol := true, ctx := m0Ctx, s := m0Src } (fuelEnough m0Src) (topTask {}) = m0Tree :=
+  ⟨eq_of_isM0Tree _ (by decide +kernel), eq_of_isM0Tree _ (by decide +kernel)⟩
+
+set_option maxRecDepth 100000 in
+/-- tolerant parse of `\p{a} b` (blank before a plain token — the input class on which a non-advancing retry
+    would loop for ever): terminates, the token is skipped -/
+example : parseTop { tol := true, ctx := m0Ctx, s := m0Src2 } {} = m0Tree2 :=
+  eq_of_isM0Tree2 _ (by decide +kernel)
+
+set_option maxRecDepth 100000 in
+/-- strict parse of the same inputs: the located error `expression_required_got_unexpected:whitespace` at the
+    blank (offset 5), no recovery nodes at top level before it -/
+example : (parseTop { tol := false, ctx := m0Ctx, s := m0Src } {}).errInfo = some (.exprWhitespace, some 5, 0)
+    ∧ (parseTop { tol := false, ctx := m0Ctx, s := m0Src2 } {}).errInfo = some (.exprWhitespace, some 5, 0) := by
+  decide +kernel
+
+/-- the general theorems apply to this context: it is closed, `{}` is its start state -/
+example : m0Ctx.Closed ∧ StartOk m0Ctx {} := by
+  refine ⟨⟨?_, ?_, ?_, ?_, ?_⟩, ⟨rfl, rfl, ?_, ?_, ?_, rfl⟩⟩
+  · intro p hp
+    simp only [m0Ctx, List.mem_cons, List.not_mem_nil, or_false] at hp
+    subst hp; trivial
+  · intro p hp; cases hp
+  · intro p hp; cases hp
+  · intro a h; cases h
+  · intro a h; cases h
+  · decide
+  · decide
+  · decide
+
+/-- `C06_no_fuel` instantiated on it -/
+example : parseTop { tol := true, ctx := m0Ctx, s := m0Src } {} ≠ .fuel :=
+  C06_no_fuel _ {} (by unfold DelimsOk; decide)
+
 #print axioms run_mono
 #print axioms C06_agree
 #print axioms run_adv
